@@ -24,7 +24,7 @@ RULE = (
     "pauses, spawn a grandchild, spawned via nested sync scope / update, re-spawn from its "
     "cancellation handler}, optionally one disposable whose clean-up raises / suspends, body in {return, raise, "
     "externally cancelled at any quiescent point}, with/without an outer scope; all "
-    "interleavings, for <= 2 tasks also with two events landing in one loop iteration; plus spawn outside any scope; non-trivial = at least one spawned task was "
+    "interleavings, for <= 2 tasks also with two events landing in one loop iteration; a body that requests its own cancellation and returns / a task carrying an earlier handled request; plus spawn outside any scope (also in a second event loop); non-trivial = at least one spawned task was "
     "still running when the body ended, or a task failed"
 )
 ASSUMPTIONS = [
@@ -74,6 +74,12 @@ def _prog(combo, ending, cancels, outer, disp=0):
 def programs(tier: str):
     yield {"detached": True, "pauses": 1}
     yield {"detached": True, "pauses": 0}
+    for mode in ("cancel-then-return", "prior-handled"):
+        for n in (1, 2):
+            for yield_first in (False, True):
+                yield {"selfcancel": True, "mode": mode, "workers": n, "yield_first": yield_first}
+    yield {"detached": True, "pauses": 1, "loops": 2}
+    yield {"detached": True, "pauses": 0, "loops": 2, "after": "scope-returned"}
     for how in ("aclose", "break"):
         for place in ("in-scope", "outside"):
             yield {"stream": True, "close": how, "place": place}
@@ -113,7 +119,78 @@ def explore_config(tier: str, program) -> dict:
     return {"cap": 400000}
 
 
+def _self_cancel(program, ch: Chooser) -> Result:
+    """the body asks for its own cancellation as its last step and returns (no suspension point in
+    between), or the task carries an earlier, handled cancellation request: in both cases the
+    spawned tasks are finished when the block is left"""
+    w = World(ch)
+    viols: list[dict] = []
+    n, mode = program["workers"], program["mode"]
+    workers: list[asyncio.Task] = []
+    st: dict = {}
+    try:
+
+        async def worker(k):
+            await w.pause(f"wk{k}", low=True)
+
+        async def main():
+            if mode == "prior-handled":
+                try:
+                    async with ctx.scope("earlier"):
+                        ctx.cancel()
+                        await asyncio.sleep(0)
+                except asyncio.CancelledError:
+                    pass  # handled by the caller; the request count of the task is not reset
+            try:
+                async with ctx.scope("block"):
+                    for k in range(n):
+                        workers.append(ctx.spawn(worker, k))
+                    if program["yield_first"]:
+                        await asyncio.sleep(0)
+                    if mode == "cancel-then-return":
+                        ctx.cancel()
+                st["left"] = "returned"
+            except asyncio.CancelledError:
+                st["left"] = "cancelled"
+            except BaseException as exc:  # noqa: BLE001
+                st["left"] = f"{type(exc).__name__}: {exc}"[:80]
+            st["pending_when_left"] = [t.get_name() for t in workers if not t.done()]
+
+        t = w.task(main(), name="victim")
+        try:
+            w.run()
+        except Livelock:
+            pass
+        witness = f"self-cancel/{mode}/workers={n}"
+        if not t.done():
+            viols.append(viol("termination", witness, "leaving the block terminates", "pending"))
+        elif st.get("pending_when_left"):
+            viols.append(viol("all-done-at-exit", f"task-outlives-scope/{witness}", "every spawned task is finished when the block is left", st["pending_when_left"], left=st.get("left")))
+        if mode == "cancel-then-return" and t.done() and st.get("left") == "cancelled":
+            awaited = [x.get_name() for x in workers if x.done() and not x.cancelled()]
+            if awaited:
+                viols.append(viol("cancelled-not-awaited", witness, "remaining spawned tasks are cancelled", awaited))
+        return Result(f"selfcancel/{mode}/{st.get('left')}", True, viols, {"left": st.get("left"), "trace": w.trace})
+    finally:
+        w.close()
+
+
 def _detached(program, ch: Chooser) -> Result:
+    if program.get("loops", 1) == 1:
+        return _detached_once(program, ch)
+    # the same process runs a second event loop after the first one was closed (two asyncio.run
+    # calls): a spawn outside any scope still yields a detached task running in the CURRENT loop
+    first = _detached_once(program, ch)
+    second = _detached_once(program, ch)
+    viols = list(first.violations)
+    for v in second.violations:
+        v = dict(v)
+        v["signature"] = v["signature"] + "/in-second-event-loop"
+        viols.append(v)
+    return Result(second.outcome + "/2-loops", True, viols, {"first": first.obs, "second": second.obs})
+
+
+def _detached_once(program, ch: Chooser) -> Result:
     w = World(ch)
     viols: list[dict] = []
     try:
@@ -291,6 +368,8 @@ def execute(program, ch: Chooser) -> Result:  # noqa: C901, PLR0912
         return _enter_cancelled(program, ch)
     if program.get("stream"):
         return _stream(program, ch)
+    if program.get("selfcancel"):
+        return _self_cancel(program, ch)
     if program.get("detached"):
         return _detached(program, ch)
     r = Run(program, ch, cancels=program["cancels"], batch=program.get("batch", 1))
